@@ -3,15 +3,33 @@
        doc_ids d = seq (first id) (number of ids drawn). *)
 From Coq Require Import List Bool Arith Lia.
 Import ListNotations.
-Require Import Kinds PyStr Line Matcher Ast Builder BuilderSafe AstIds Automaton AutoFacts Pipeline Dialects Table TableFacts
+Require Import Kinds PyStr Line Matcher Ast Builder BuilderSafe AstIds Automaton AutoFacts Pipeline PipelineFacts Dialects Table TableFacts
                MatcherTyping C02Lemmas PathReplay DenseDefs DenseCert DenseFacts DenseStack.
 
 Notation rP := (pipeline_params Table.table).
 
-Lemma pipe_match k m t t' m' : matchf rP k m t = MR true t' m' -> tok_ok k t'.
+Definition any_ms (m : mstate) : Prop := True.
+Lemma any_ms_kept k m t : any_ms m -> match matchf rP k m t with MR _ _ m' | MRaise _ _ m' => any_ms m' end.
+Proof. intros _. destruct (matchf rP k m t); exact I. Qed.
+Lemma pipe_match k m t t' m' : any_ms m -> matchf rP k m t = MR true t' m' -> tok_ok k t'.
 Proof.
-  cbn [matchf pipeline_params]. unfold p_matchf. destruct (matcher dialects k m t) as [|t1 m1|e t1 m1] eqn:M; intros H; inversion H; subst.
+  intros _. cbn [matchf pipeline_params]. unfold p_matchf. destruct (matcher dialects k m t) as [|t1 m1|e t1 m1] eqn:M; intros H; inversion H; subst.
   eapply matcher_tok_ok; eauto.
+Qed.
+
+(* a token the matcher made, as kind k, in some well-formed matcher state, out of the scanner's raw token of
+   the token's own physical line (`canon`: that line and its number, nothing else) *)
+Definition tok_made (k : kind) (t : token) : Prop :=
+  tok_ok k t /\ exists m0 m', PipelineFacts.wf_ms m0 /\ matcher dialects k m0 (canon t) = MYes t m'.
+Lemma wf_ms_kept k m t : PipelineFacts.wf_ms m -> match matchf rP k m t with MR _ _ m' | MRaise _ _ m' => PipelineFacts.wf_ms m' end.
+Proof.
+  intros W. cbn [matchf pipeline_params]. unfold p_matchf. pose proof (PipelineFacts.matcher_wf k m t W) as H.
+  destruct (matcher dialects k m t); [exact W | apply H | apply H].
+Qed.
+Lemma pipe_made k m t t' m' : PipelineFacts.wf_ms m -> matchf rP k m t = MR true t' m' -> tok_made k t'.
+Proof.
+  intros W. cbn [matchf pipeline_params]. unfold p_matchf. destruct (matcher dialects k m t) as [|t1 m1|e t1 m1] eqn:M; intros H; inversion H; subst.
+  split; [eapply matcher_tok_ok; eauto | exists m, m'; split; [exact W | eapply matcher_canon; eauto]].
 Qed.
 Lemma pipe_eof' k m t : is_eof rP (mtok' (matchf rP k m t)) = is_eof rP t.
 Proof. exact (pipe_eof k m t). Qed.
@@ -108,7 +126,7 @@ Proof.
   unfold parse_source, parse_tokens, parse_tokens_with.
   destruct (parse rP stop (scan src) (reset_matcher dialects m) (reset_builder b)) as [[] c|e c|es c|c|] eqn:P; try discriminate.
   destruct (builder_result (bs c)) as [d0|] eqn:Br; [|discriminate]. intros H. inversion H; subst. clear H.
-  destruct (path_replay rP tok_ok pipe_match pipe_eof' _ _ _ _ _ P) as (b2 & s & b3 & l & Hs & R & He & Hend & _).
+  destruct (path_replay rP any_ms any_ms_kept tok_ok pipe_match pipe_eof' _ _ _ _ _ I P) as (b2 & s & b3 & l & Hs & R & He & Hend & _).
   pose proof (reach_dinv (b_idc b) b2 (start_dinv _ _ Hs) s b3 l R) as (rec & Hl & S & Dn).
   destruct (ends_doc s He) as (f & Hf & Hr). rewrite Hf in Hl. inversion Hl; subst rec.
   exact (final_dense _ _ _ _ _ S Hr Dn Hend Br).
